@@ -1,5 +1,5 @@
 (* C11 — Name and value case rules follow the document type.  Statements only. *)
-From SV Require Import Base Regex Tree IR Lit Inputs Match NsFacts AttrPat.
+From SV Require Import Base Regex Tree IR Lit Inputs Match NsFacts AttrPat AttrFacts AttrFactsIC.
 From SV.gen Require Import ConstGen.
 
 (* HTML: tag names and attribute names in a selector match regardless of ASCII case *)
@@ -50,3 +50,35 @@ Proof.
   intros c c'. unfold cs_mem. cbn [existsb fst snd]. rewrite orb_false_r, andb_true_iff, !N.leb_le. lia.
 Qed.
 Print Assumptions C11_value_case_sensitive.
+
+(* The value rule for EVERY selector value v and EVERY attribute value x, with or without the `i` flag (ic): the pattern the
+   parser builds for an operator accepts x exactly when x relates to v as CSS says, character by character up to
+   `ceq ic` - identity without the flag (sim_exact), the regenerated case closure with it.  AttrPat.attr_template is
+   validated AST-for-AST against the live parser on every run. *)
+Theorem C11_value_eq : forall ic v x dotall, accepts (attr_template OpEq v ic dotall) x = true <-> sim ic v x.
+Proof. exact op_eq_ic. Qed.
+Print Assumptions C11_value_eq.
+Theorem C11_value_prefix : forall ic v x dotall,
+  accepts (attr_template OpPrefix v ic dotall) x = true <-> v <> [] /\ exists w r, x = w ++ r /\ sim ic v w.
+Proof. exact op_prefix_ic. Qed.
+Print Assumptions C11_value_prefix.
+Theorem C11_value_suffix : forall ic v x, valid_str x ->
+  accepts (attr_template OpSuffix v ic true) x = true <-> v <> [] /\ exists l w, x = l ++ w /\ sim ic v w.
+Proof. exact op_suffix_ic. Qed.
+Print Assumptions C11_value_suffix.
+Theorem C11_value_substring : forall ic v x, valid_str x ->
+  accepts (attr_template OpSubstr v ic true) x = true <-> v <> [] /\ exists l w r, x = l ++ w ++ r /\ sim ic v w.
+Proof. exact op_substr_ic. Qed.
+Print Assumptions C11_value_substring.
+Theorem C11_value_dash : forall ic v x, valid_str x ->
+  accepts (attr_template OpDash v ic true) x = true <-> sim ic v x \/ exists w r, x = w ++ [45%N] ++ r /\ sim ic v w.
+Proof. exact op_dash_ic. Qed.
+Print Assumptions C11_value_dash.
+Theorem C11_value_word : forall ic v x, valid_str x ->
+  accepts (attr_template OpWord v ic true) x = true <->
+  v <> [] /\ has_ws v = false /\ exists l w r, x = l ++ w ++ r /\ sim ic v w /\ ws_or_edge (rev l) = true /\ ws_or_edge r = true.
+Proof. exact op_word_ic. Qed.
+Print Assumptions C11_value_word.
+Theorem C11_value_exact_without_flag : forall v w, sim false v w <-> w = v.
+Proof. exact sim_exact. Qed.
+Print Assumptions C11_value_exact_without_flag.
